@@ -58,7 +58,65 @@ pub fn body(args: &[&str]) -> Option<Vec<String>> {
         }
         Err(_) => "-".to_string(),
     };
-    Some(vec![first, part])
+    // the same body / content through `MessageBuilder::body` and `SinglePartBuilder::body`, with and without a
+    // Content-Transfer-Encoding header set beforehand: `<m|p><B|R><preset>=<declared>:<octets>`
+    let variants = if content.len() <= 512 {
+        let mut out = Vec::new();
+        let split = |f: &[u8], part: bool| -> Option<Vec<u8>> {
+            let pos = f.windows(4).position(|w| w == b"\r\n\r\n").map(|p| p + 4)?;
+            let body = &f[pos..];
+            Some(if part { body.strip_suffix(b"\r\n").unwrap_or(body).to_vec() } else { body.to_vec() })
+        };
+        for preset in ["-", "7", "q", "b", "8", "n"] {
+            for input in ["B", "R"] {
+                let body_in: Option<Body> = if input == "B" { make(content.clone())?.ok() } else { None };
+                if input == "B" && body_in.is_none() {
+                    continue;
+                }
+                // message (`into_body` is documented to panic when a requested encoding cannot carry the content)
+                let content2 = content.clone();
+                let body2 = body_in.clone();
+                let r = std::panic::catch_unwind(std::panic::AssertUnwindSafe(|| -> Option<(String, String)> {
+                    let mut mb = lettre::Message::builder().from("a@b.c".parse().ok()?).to("x@y.z".parse().ok()?);
+                    if preset != "-" {
+                        mb = mb.header(cte_of(preset)?);
+                    }
+                    let m = match (&body2, kind) {
+                        (Some(b), _) => mb.body(b.clone()),
+                        (None, "s") => mb.body(String::from_utf8(content2.clone()).ok()?),
+                        (None, _) => mb.body(content2.clone()),
+                    }
+                    .ok()?;
+                    let cte = m.headers().get::<Cte>().map(cte_name).unwrap_or("none");
+                    let a = format!("m{input}{preset}={}:{}", cte, hex(&split(&m.formatted(), false)?));
+                    // single part
+                    let mut pb = SinglePart::builder().header(lettre::message::header::ContentType::TEXT_PLAIN);
+                    if preset != "-" {
+                        pb = pb.header(cte_of(preset)?);
+                    }
+                    let p = match (&body2, kind) {
+                        (Some(b), _) => pb.body(b.clone()),
+                        (None, "s") => pb.body(String::from_utf8(content2.clone()).ok()?),
+                        (None, _) => pb.body(content2.clone()),
+                    };
+                    let cte = p.headers().get::<Cte>().map(cte_name).unwrap_or("none");
+                    Some((a, format!("p{input}{preset}={}:{}", cte, hex(&split(&p.formatted(), true)?))))
+                }));
+                match r {
+                    Ok(Some((a, b))) => {
+                        out.push(a);
+                        out.push(b);
+                    }
+                    Ok(None) => return None,
+                    Err(_) => out.push(format!("x{input}{preset}=panic")),
+                }
+            }
+        }
+        out.join(",")
+    } else {
+        "-".to_string()
+    };
+    Some(vec![first, part, variants])
 }
 
 /// `crlf <string>` → `in_place_crlf_line_endings`, observed through an 8bit body
